@@ -36,6 +36,7 @@ type VT struct {
 	MapV    []*VT    `json:"mv,omitempty"`
 	Fields  []*Field `json:"fields,omitempty"`
 	Bad     string   `json:"bad,omitempty"` // unconvertible host data: nil | chan | mixed
+	Arr     bool     `json:"arr,omitempty"` // list materialised as a Go array instead of a slice
 }
 
 type Field struct {
@@ -130,6 +131,9 @@ func (v *VT) goType() reflect.Type {
 	case "time":
 		return reflect.TypeOf(time.Time{})
 	case "list":
+		if v.Arr {
+			return reflect.ArrayOf(len(v.List), v.Proto.goType())
+		}
 		return reflect.SliceOf(v.Proto.goType())
 	case "map":
 		kt := reflect.TypeOf("")
@@ -189,6 +193,12 @@ func (v *VT) goValue() reflect.Value {
 	case "time":
 		rv.Set(reflect.ValueOf(time.Unix(v.Time, 0)))
 	case "list":
+		if v.Arr {
+			for i, e := range v.List {
+				rv.Index(i).Set(e.goValue())
+			}
+			break
+		}
 		s := reflect.MakeSlice(t, len(v.List), len(v.List))
 		for i, e := range v.List {
 			s.Index(i).Set(e.goValue())
@@ -494,7 +504,7 @@ func genProg7(r *rng, e *Env7) string {
 // --- mutations ---------------------------------------------------------------------
 
 var mutKinds = []string{"same", "same", "contents", "extra", "numkind", "ptrflip", "carrier", "reorder", "reorder", "reorder-top",
-	"maybe-flip", "raw", "hetero", "hetero", "drop", "retype-top", "retype-deep", "field-add", "field-remove", "field-rename", "nil-flip", "bad"}
+	"maybe-flip", "raw", "array", "hetero", "hetero", "drop", "retype-top", "retype-deep", "field-add", "field-remove", "field-rename", "nil-flip", "bad"}
 
 // collect object nodes (with their depth) below the bindings
 func objNodes(e *Env7) []*VT {
@@ -700,6 +710,14 @@ func (g *gen7) mutate(a *Env7, kind string) *Env7 {
 			}
 			return false
 		})
+	case "array":
+		// a top-level list bound as a Go array instead of a slice (arrays nested in
+		// containers would change the containers' static element type)
+		for _, b := range e.Binds {
+			if b.V.K == "list" && len(b.V.List) > 0 && !b.Nil && b.V.Bad == "" {
+				b.V.Arr = !b.V.Arr
+			}
+		}
 	case "hetero":
 		// a container with a concrete Go element type whose entries convert to different
 		// yae types (an untagged pointer field that is nil in some entries only)
@@ -779,6 +797,7 @@ type Hist7 struct {
 	Src   string       `json:"src"`
 	Steps []*Step7     `json:"steps"`
 	Reuse bool         `json:"reuse"` // reuse the previous step's host object when the step is "same"
+	RawA  bool         `json:"raw_a,omitempty"` // compile against a raw *types.Env (conv.TypeEnvOf(A))
 	Sim   simrt.Config `json:"sim"`
 }
 
@@ -804,6 +823,7 @@ func genHist7(r *rng) *Hist7 {
 		h.Steps = append(h.Steps, st)
 	}
 	h.Reuse = r.chance(0.5)
+	h.RawA = r.chance(0.25)
 	h.Sim = simrt.Config{Seed: r.u64() | 1, ClockSeam: true, ClockBase: 1700000000, MaxSteps: 20_000_000,
 		MapMode: []int{simrt.MapShuffle, simrt.MapReverse, simrt.MapRotate, simrt.MapSorted}[r.intn(4)], MapParam: 1 + r.intn(4)}
 	if r.chance(0.3) {
@@ -884,7 +904,13 @@ func runHist7(h *Hist7, x *evalCtx) hist7Result {
 					compileErr = fmt.Errorf("panic: %v", r)
 				}
 			}()
-			c, compileErr = eng.Compile(h.Src, hostA)
+			var compileEnv interface{} = hostA
+			if h.RawA {
+				if te, err := conv.TypeEnvOf(hostA); err == nil {
+					compileEnv = te
+				}
+			}
+			c, compileErr = eng.Compile(h.Src, compileEnv)
 		}()
 		if compileErr != nil {
 			return
@@ -971,7 +997,7 @@ func runHist7(h *Hist7, x *evalCtx) hist7Result {
 
 // dominant names the mutation a violation is attributed to in its signature.
 var mutPriority = []string{"bad", "hetero", "drop", "retype-top", "retype-deep", "field-add", "field-remove", "field-rename", "nil-flip",
-	"reorder", "reorder-top", "raw", "carrier", "ptrflip", "numkind", "maybe-flip", "extra", "contents", "same"}
+	"reorder", "reorder-top", "raw", "array", "carrier", "ptrflip", "numkind", "maybe-flip", "extra", "contents", "same"}
 
 func dominant(muts []string) string {
 	for _, p := range mutPriority {
